@@ -195,7 +195,7 @@ package iscp
 // Conn-level use of the state machine (guarantee side of "Closed is terminal")
 //@ func (*Conn).send
 //@   props C10 C05
-//@   requires c.state != nil && c.state.cond != nil && c.state.RWMutex != nil && ctx != nil && f != nil
+//@   requires[C10,C05] c.state != nil && c.state.cond != nil && c.state.RWMutex != nil && ctx != nil && f != nil
 //@   assert[C10] call CompareAndSwapNot: arg1 == connStatusClosed
 //@   ensures[C10] imp(old(c.state.current) == connStatusClosed, result == errors.ErrConnectionClosed)
 // C05: a request interrupted by an outage is issued again after recovery instead of failing with a
@@ -697,3 +697,12 @@ package iscp
 //@   after recv metadataCh: got = v
 //@   assert call SendDownstreamMetadataAck: got != nil && arg2 != nil && arg2.RequestID == got.RequestID && arg2.ResultCode == message.ResultCodeSucceeded
 //@   ensures imp(result1 == nil, result0 != nil && got != nil && result0.SourceNodeID == got.SourceNodeID && result0.Metadata == got.Metadata)
+
+// ---------------------------------------------------------------- C20: Flush is a rendezvous
+// Both channels of the explicit-flush handshake are unbuffered: the flush loop can hand a result
+// only to a caller that is waiting for it at that moment, so the result of an abandoned Flush can
+// never be left behind for the next caller (who would then return before its own flush ran), and
+// the write inbox is unbuffered too (a point is accepted only when the flush loop takes it).
+//@ func (*Conn).OpenUpstream
+//@   props C20
+//@   assert call registerUpstream: arg1 != nil && cap(arg1.explicitlyFlushCh) == 0 && cap(arg1.explicitlyFlushResultCh) == 0 && cap(arg1.dpgCh) == 0
